@@ -83,7 +83,13 @@ func describeSynEvents(h *synHistory) string {
 	s := ""
 	for i, es := range h.Events {
 		s += fmt.Sprintf(" Parse#%d %s:", i+1, h.Case.G.inputString(h.Inputs[i].Toks))
-		for _, e := range es {
+		for k, e := range es {
+			if k == 40 && len(es) > 60 {
+				s += fmt.Sprintf(" ... (%d more events)", len(es)-40)
+			}
+			if k >= 40 && k < len(es)-3 && len(es) > 60 {
+				continue
+			}
 			switch e["ev"] {
 			case "call":
 				s += fmt.Sprintf(" call(p%v)", e["p"])
@@ -95,6 +101,8 @@ func describeSynEvents(h *synHistory) string {
 				}
 			case "panic":
 				s += fmt.Sprintf(" PANIC(%v)", e["msg"])
+			case "hang":
+				s += " DID NOT RETURN (ended by the watchdog after 20 s)"
 			}
 		}
 	}
